@@ -7,7 +7,8 @@ constructor has a fixed arity, lists are preceded by their length):
 
 ```
 wsgi serve <app> <req>                       one request on fresh slots (C03)
-wsgi hist  <app> <n> <hreq>*n                a whole history on one application (C09)
+wsgi hist  <app> <nm> (cls code line body)*nm <n> <hreq>*n   a whole history on one application (C09);
+                                             nm > 0: the application's own errors_map
 wsgi setstatus <i n | s hex>                 the status setter alone
 
 app     := <catchall> <nb> hook*  <na> hook*  <ne> (<code> errh)*
@@ -19,7 +20,8 @@ out     := f <kind> | t <hex> | b <hex> | r <0|1> rstate out | fl <id> <hc> <hi>
 rstate  := <code> <hexline> <nh> (<k> <nv> (g <hex> | x)*)* <nc> (<k> <v>)*
 item    := e | t <hex> | b <hex> | y out | rr out | ex | un <hex>
 errh    := c out | bd | ex
-req     := <id> <head> <fw> <pathok> <hexpath> <hexurlrepr> <json> route
+req     := <id> <head> <fw> <pathok> <hexpath> <hexurlrepr> <json> arrival route
+arrival := - | <byHook> <head> <hexpath> <hexurlrepr>      (the request before hook byHook rewrote it)
 route   := h handler | nf | na <hexallow>
 handler := effs (ret out | rr out | ex)
 hreq    := req <bodyerr> <singleton> <ext>   singleton := - | <k>   (the outcome object is the application's module-level object k)
@@ -205,9 +207,16 @@ def pReq : P Req := do
   let path ← pStr
   let url ← pStr
   let js ← pBool
+  let ar ← tok
+  let arrival ← (if ar == "-" then pure none else do
+    let k ← (match ar.toNat? with | some n => pure n | none => failure)
+    let h ← pBool
+    let p ← pStr
+    let u ← pStr
+    pure (some { isHead := h, path := p, urlRepr := u, byHook := k : Arrival }))
   let route ← pRoute
   pure { id := id, isHead := head, fileWrapper := fw, pathOK := pok, path := path, urlRepr := url,
-         json := js, route := route }
+         json := js, route := route, arrival := arrival }
 
 def showEvent : Event → String
   | .before i => s!"b{i}"
@@ -288,17 +297,24 @@ def handle : List String → Option String
       let a ← pApp
       let r ← pReq
       pure (a, r)) rest
-    let res := wsgiC ca app Slots.fresh req
+    let res := wsgiC ca app Slots.fresh (effective app req)
     let (hb, ha) := hooksAfter app req
     let hooks := s!" hooks={showNatList hb}/{showNatList ha}"
     pure (if res.escaped then s!"ev={showEvents (res.events ++ serverEvents res)} escaped" ++ hooks
           else showResult (res.events ++ serverEvents res) res ++ hooks)
   | "hist" :: rest => do
-    let ((_, app), reqs) ← run (do
+    let ((_, app), emap, reqs) ← run (do
       let a ← pApp
+      let m ← pList (do
+        let cls ← tok
+        let code ← pNat
+        let line ← pStr
+        let body ← pStr
+        pure (cls, code, line, body))
       let rs ← pList pHReq
-      pure (a, rs)) rest
-    let (st, outs) := serveAll app AppState.init reqs
+      pure (a, m, rs)) rest
+    let st0 := if emap.isEmpty then AppState.init else AppState.initWith emap
+    let (st, outs) := serveAll app st0 reqs
     pure (";".intercalate (outs.map showResponse) ++ s!" retained={(retained st).length}")
   | ["setstatus", "i", n] => do
     let k ← n.toNat?
